@@ -3,7 +3,9 @@
 (* Trace validation for C03.                                               *)
 (*  Norm: a (name, raw value, normalised value) triple observed from       *)
 (*        Attribute::raw_value()/value(): the normalisation keeps the      *)
-(*        numeric payload / target and stays within the value's class; the *)
+(*        numeric payload and moves the value only to the variant the      *)
+(*        attribute *name* assigns (section of a section offset,           *)
+(*        enumeration of a constant, expression for a block); the          *)
 (*        udata/sdata/offset/u8/u16 conversions of the raw value are the   *)
 (*        zero / sign extensions of the payload.                           *)
 (*  Die:  one entry of a real unit: the forms of its abbreviation, what    *)
@@ -18,7 +20,7 @@ VARIABLE l
 Rec == ndJsonDeserialize(IOEnv.TRACE)
 IsEv(e) == l <= Len(Rec) /\ Rec[l].ev = e /\ l' = l + 1
 
-Norm == IsEv("Norm") /\ NormOk(Rec[l].raw, Rec[l].norm) /\ ConvOk(Rec[l].raw, Rec[l].conv)
+Norm == IsEv("Norm") /\ NormOk(Rec[l].name, Rec[l].raw, Rec[l].norm) /\ ConvOk(Rec[l].raw, Rec[l].conv)
 
 RECURSIVE SumN(_, _)
 SumN(as, i) == IF i > Len(as) THEN 0 ELSE as[i].n + SumN(as, i + 1)
